@@ -1603,7 +1603,51 @@ def case_big_codes(rng, ctx):
     ctx.state(repr(model_key(model))[:4000])
 
 
+def case_long_input(rng, ctx):
+    """Inputs whose length passes 16 bits: minimizers over more than 65536 k-mers, one k-mer with more than 32767 (65535)
+    positions in a table.  References are NumPy recomputations."""
+    alph = seq.NucleotideSequence.alphabet_unamb
+    k = int(rng.choice([3, 5]))
+    kalph = align.KmerAlphabet(alph, k)
+    n = int(rng.choice([65540, 70003, 131075]))
+    code = rng.integers(0, 4, size=n).astype(np.uint8)
+    ctx.log("long_input", {"n": n, "k": k})
+    ctx.mark_nontrivial()
+    kmers = kalph.create_kmers(code)
+    window = int(rng.choice([2, 7, 64]))
+    ctx.op("MinimizerSelector.long_input")
+    sel = align.MinimizerSelector(kalph, window)
+    pos, km = sel.select_from_kmers(kmers)
+    view = np.lib.stride_tricks.sliding_window_view(np.asarray(kmers, dtype=np.int64), window)
+    exp = np.unique(np.arange(len(view)) + view.argmin(axis=1))          # leftmost minimum of every window, once each
+    ctx.oracle("minimizer_vs_definition")
+    if not (np.array_equal(np.asarray(pos, dtype=np.int64), exp) and np.array_equal(np.asarray(km, dtype=np.int64), np.asarray(kmers)[exp])):
+        gp = np.asarray(pos, dtype=np.int64)
+        first = int(np.nonzero(gp[: min(len(gp), len(exp))] != exp[: min(len(gp), len(exp))])[0][:1].sum()) if len(gp) else 0
+        ctx.fail("minimizer_vs_definition", "minimizers of %d k-mers (window %d): %d positions, the definition gives %d (first difference near entry %d)"
+                 % (len(kmers), window, len(gp), len(exp), first))
+    # one k-mer with very many positions
+    m = int(rng.choice([32767, 32768, 40000, 65536, 70000]))
+    code2 = np.concatenate([np.zeros(m + k - 1, dtype=np.uint8), rng.integers(0, 4, size=200).astype(np.uint8)])
+    s2 = seq.NucleotideSequence()
+    s2.code = code2
+    ctx.op("KmerTable.count.long_input")
+    t = align.KmerTable.from_sequences(k, [s2])
+    km2 = np.asarray(kalph.create_kmers(code2), dtype=np.int64)
+    ctx.oracle("count_vs_model")
+    probe_codes = np.array([0, int(km2[-1]), int(km2[len(km2) // 2 + m // 2 if len(km2) // 2 + m // 2 < len(km2) else -2])], dtype=np.int64)
+    cnt = np.asarray(t.count(probe_codes), dtype=np.int64)
+    expc = np.array([(km2 == c).sum() for c in probe_codes], dtype=np.int64)
+    lens = np.array([len(t[int(c)]) for c in probe_codes], dtype=np.int64)
+    if not (np.array_equal(cnt, expc) and np.array_equal(lens, expc)):
+        ctx.fail("count_vs_model", "table over a sequence in which one %d-mer occurs %d times: count() = %s, len(table[kmer]) = %s, occurrences %s"
+                 % (k, int(expc[0]), cnt.tolist(), lens.tolist(), expc.tolist()))
+    ctx.state(("long_input", k, window, m > 65535, n > 131072))
+
+
 def run_case(stratum, rng, ctx):
+    if stratum == "selectors" and ctx.index % 150 == 149:
+        return case_long_input(rng, ctx)
     if stratum == "table_build":
         case_table_build(rng, ctx)
     elif stratum == "match":
